@@ -956,6 +956,17 @@ impl WorldA {
                 if qs > *cap {
                     self.viol(out, "C13", "mint-above-cap", json!({}), format!("supply {} > cap {}", qs, cap));
                 }
+                // in exact arithmetic: whatever the contract reports afterwards, tokens were created beyond the cap
+                let fits = ps.checked_add(amount_tok).map(|v| v <= *cap).unwrap_or(false);
+                if !fits {
+                    self.viol(
+                        out,
+                        "C13",
+                        "mint-accepted-beyond-cap",
+                        json!({"reported_supply_within_cap": qs <= *cap}),
+                        format!("Mint of {} accepted at supply {} with cap {}: supply + amount exceeds the cap (reported supply afterwards: {})", amount_tok, ps, cap, qs),
+                    );
+                }
                 if qs == *cap {
                     self.meter.hit("mint_to_exactly_cap");
                 }
